@@ -9,6 +9,7 @@ import SkModel.Task
 import SkModel.Result
 import SkModel.Spec.Simple
 import SkModel.Spec.Sequence
+import SkModel.Store
 
 open Lean Sk
 
@@ -174,10 +175,38 @@ partial def c03Exh (L : Nat) : Nat × Nat := Id.run do
         if !ok then bad := bad + 1
   return (total, bad)
 
+/-! ### Store (C15) -/
+
+def optNat (v : Option Nat) : Json := optJson (fun (n : Nat) => toJson n) v
+
+def storeJson (st : Store) : Json :=
+  Json.mkObj [("data", Json.arr (st.data.map fun p => Json.arr #[toJson p.1, Json.str p.2]).toArray),
+              ("nblocks", toJson st.nblocks)]
+
+def runStoreCase (j : Json) : Json :=
+  let supA := (arrF j "sup").map asNat
+  let sup : Nat → Nat := fun k => supA.getD k 0
+  let st0 : Store := { B := natF j "B", pre := boolF j "pre" }
+  let ops := (arrF j "ops").toList.map fun o =>
+    let a := asArr o
+    (optStr (a.getD 0 .null), optStr (a.getD 1 .null), optStr (a.getD 2 .null))
+  let rec go (st : Store) (ops : List (Option Val × Option Val × Option Val)) (acc : Array Json) :
+      Array Json :=
+    match ops with
+    | [] => acc
+    | (t, s, v) :: rest =>
+      match st.add sup t s v with
+      | .ok (st', (ti, si, vi)) =>
+        go st' rest (acc.push (Json.mkObj [("ret", Json.arr #[optNat ti, optNat si, optNat vi]),
+                                            ("store", storeJson st')]))
+      | .error _ => acc.push (Json.mkObj [("err", "alloc")])
+  Json.mkObj [("steps", Json.arr (go st0 ops #[]))]
+
 def handle (j : Json) : Json :=
   match strF j "kind" with
   | "task" => Json.mkObj [("model", runTaskCase j), ("specSimple", specSimpleCase j),
                           ("specSeq", specSeqCase j)]
+  | "store" => Json.mkObj [("model", runStoreCase j)]
   | "c03exh" =>
     let (t, b) := c03Exh (natF j "L")
     Json.mkObj [("total", toJson t), ("bad", toJson b)]
